@@ -304,6 +304,32 @@ func genC11(seed uint64, part string) *Scenario {
 	sc.Mode = r.PickS("auto", "auto", "manual", "none")
 	sc.RefreshUS = r.Pick(50, 200, 1000)
 	sc.End = r.PickS("natural", "natural", "cancel", "shutdown")
+	if r.Chance(1, 4) && part != "" {
+		// Abort racing the completing increment on several bars at once, with a reader watching
+		sc.Mode = "auto"
+		sc.End = "natural"
+		sc.Trig = nil
+		nb := r.Range(3, 8)
+		var a, b, c []Op
+		for i := 0; i < nb; i++ {
+			bar := simpleBar(int64(r.Pick(1, 2, 3)))
+			bar.Filler = "nop"
+			sc.Bars = append(sc.Bars, bar)
+			for k := int64(0); k < bar.Total-1; k++ {
+				a = append(a, Op{K: "incr", B: i, N: 1})
+			}
+		}
+		for i := 0; i < nb; i++ {
+			a = append(a, Op{K: "incr", B: i, N: 1}, Op{K: "compl", B: i})
+			b = append(b, Op{K: "abort", B: i, F: r.Bool()}, Op{K: "abrt", B: i})
+			c = append(c, Op{K: "compl", B: i}, Op{K: "abrt", B: i}, Op{K: "compl", B: i})
+		}
+		for i := 0; i < nb; i++ {
+			c = append(c, Op{K: "compl", B: i}, Op{K: "abrt", B: i})
+		}
+		sc.Clients = [][]Op{a, b, c}
+		return sc
+	}
 	n := r.Range(1, 4)
 	for i := 0; i < n; i++ {
 		total := int64(r.Pick(0, -1, 1, 3, 10))
